@@ -255,14 +255,14 @@ func (fo *fieldObj) scanDirect(fi *funcInfo) {
 	in := fi.pkg.info
 	wholeLHS := map[ast.Expr]bool{}
 	// locals initialised from a reference-typed field: stores through them write the field's contents
-	fieldAlias := map[*types.Var]string{}
+	fieldAlias := map[*types.Var][]string{}
 	ast.Inspect(fi.decl.Body, func(n ast.Node) bool {
 		if as, ok := n.(*ast.AssignStmt); ok && len(as.Lhs) == len(as.Rhs) {
 			for i, l := range as.Lhs {
 				if id, ok := l.(*ast.Ident); ok {
 					if f, _, _, ok := fo.fieldUnder(in, as.Rhs[i]); ok {
 						if v, ok := (&fctx{an: fo.an, fi: fi, in: in}).objOf(id).(*types.Var); ok && refs(v.Type()) {
-							fieldAlias[v] = f
+							fieldAlias[v] = append(fieldAlias[v], f)
 						}
 					}
 				}
@@ -287,7 +287,7 @@ func (fo *fieldObj) scanDirect(fi *funcInfo) {
 		// store through a local alias of a field
 		_, bv, steps, ok := c.decompose(l)
 		if ok && bv != nil {
-			if f, is := fieldAlias[bv]; is {
+			for _, f := range fieldAlias[bv] {
 				der := false
 				for _, s := range steps {
 					der = der || s.deref
@@ -342,6 +342,14 @@ func (fo *fieldObj) scanDirect(fi *funcInfo) {
 								fo.addWrite(f, fi, "partial")
 								fo.contents = append(fo.contents, contentStore{f, sub, fi.short, "call:" + callee.short})
 							}
+						} else if _, bv, steps, ok := c.decompose(stripAddr(a)); ok && bv != nil {
+							// the argument is reached through a local initialised from a field (p := e.params; p.X.M())
+							for _, f := range fieldAlias[bv] {
+								if t := c.typeOf(a); t != nil && refs(t) {
+									fo.addWrite(f, fi, "partial")
+									fo.contents = append(fo.contents, contentStore{f, firstField(steps), fi.short, "alias-call:" + callee.short})
+								}
+							}
 						}
 					}
 				}
@@ -359,6 +367,24 @@ func (fo *fieldObj) scanDirect(fi *funcInfo) {
 		}
 		return true
 	})
+}
+
+func stripAddr(e ast.Expr) ast.Expr {
+	for {
+		switch x := e.(type) {
+		case *ast.ParenExpr:
+			e = x.X
+		case *ast.UnaryExpr:
+			if x.Op != token.AND {
+				return e
+			}
+			e = x.X
+		case *ast.SliceExpr:
+			e = x.X
+		default:
+			return e
+		}
+	}
 }
 
 func unparen(e ast.Expr) ast.Expr {
